@@ -153,4 +153,89 @@ Proof.
   destruct (Hbeh _ _ Hrun Hg) as [m Hm].
   exists (S m). rewrite arn_switch. cbn [exec_named]. unfold lookup_id. rewrite Hla, Hf, Hb. exact Hm.
 Qed.
+
+(* <mu a.s | case {..}>  =  create a = {..}; s *)
+Lemma fl_create_case : forall n, IHn n -> forall c1 a s' t1 ty c2 cls t2,
+  FLs p q n (FsCut (FsMu c1 a s' t1) ty (FsXCase c2 cls t2)).
+Proof.
+  intros n IH c1 a s' t1 ty c2 cls t2. start. cbn [rn_stmt] in Hsh. rewrite rn_term_xcase in Hsh.
+  cbn [rn_term shrink_step shrink_cut] in Hsh. unfold shrink_identifier in Hsh.
+  destruct (shrink_clauses _ _ (rn_clauses rho cls) st) as [[cls' st1]|] eqn:E1; [|discriminate Hsh]. cbn [sbind] in Hsh.
+  destruct (shrink_stmt k _ (rn_stmt rho s') st1) as [[next st2]|] eqn:E2; [|discriminate Hsh]. cbn [sbind] in Hsh. invsh Hsh.
+  rewrite check_stmt_cut_eq in Hck. apply seq_none in Hck as [Hty Hck]. apply seq_none in Hck as [Hcp Hck].
+  rewrite check_term_mu_eq in Hcp. apply seq_none in Hcp as [_ Hcp]. apply seq_none in Hcp as [_ Hcs]. cbn [opp] in Hcs.
+  destruct (xcase_typing p _ _ _ _ _ _ Hck) as (T & d & -> & Hd & Hcm & Hcb).
+  rewrite ib_stmt_cut, ib_term_xcase, ib_term_mu in Hib. apply andb_prop in Hib as [Hib1 Hibc].
+  apply andb_prop in Hib1 as [Hia Hibs]. apply id_le_le in Hia.
+  cbn [ub_stmt] in Hub. rewrite ub_term_xcase in Hub. cbn [ub_term] in Hub. apply andb_prop in Hub as [Hub1 Hubc].
+  apply andb_prop in Hub1 as [Hua Hubs]. apply negb_mem_notin in Hua.
+  rewrite pfresh_create in Hpf. apply andb_prop in Hpf as [Hpf Hpn]. apply andb_prop in Hpf as [Hpc Hpa]. apply negb_memN_notin in Hpa.
+  destruct (shrink_clauses_mono p _ _ _ _ _ _ _ E1 (fun c Hc => proj2 (ib_clauses_in p _ _ Hibc Hc)) (inv_st _ _ _ _ _ Hinv)) as [Hm1 (nd1 & Hl1)].
+  assert (Hinv1 : inv p G rho th st1) by (eapply inv_st_mono; eauto).
+  destruct (shrink_mono p _ _ _ _ _ _ _ Hibs (inv_st _ _ _ _ _ Hinv1) E2) as [Hm2 (nd2 & Hl2)].
+  assert (Hlift1 : lifted_in q st1) by (eapply lifted_in_mono; eauto).
+  cbn [CoreSem.fs2c_stmt] in Hrun. rewrite fs2c_term_xcase in Hrun. cbn [CoreSem.fs2c_term] in Hrun.
+  core_step Hrun Hg n. cbn [CoreSem.khead CoreSem.cut_with_k] in Hrun.
+  set (kv := CoreSem.KCase (fs2c_clauses cls) e) in *.
+  assert (Hrun' : CoreSem.crun n P (CoreSem.Run (CoreSem.fs2c_stmt s') ((a, BK kv) :: e)) out = r).
+  { destruct (CoreSem.is_codata P (CDecl T)); exact Hrun. }
+  clear Hrun.
+  assert (Hco : is_codata codata (CDecl T) = false) by (eapply data_not_codata; eauto).
+  assert (Hclo : vrel p q n CCns (CDecl T) (BK kv) (VClo T (arn_cls th cls') ae)).
+  { apply VR_clo. apply cloR_intro; [exact Hco|]. intros j Hj tag fs sr (_ & d1 & sg & args & Hd1 & Hx & Hvs & ->).
+    rewrite Hd in Hd1. inv_keep Hd1. unfold kv. cbn [CoreSem.interact_val]. apply relsV_vrelsF in Hvs.
+    eapply (select_sim j (IH j ltac:(lia)) k lbl CCns T d cls G rho th st cls' st1 A e ae tag sg args fs); eauto.
+    eapply erel_weaken; [exact He | lia | intros y Hy; occx | apply incl_refl]. }
+  assert (He' : erel p q n (fun y => occurs y s') (fun y => th (rho y)) (idn a :: A) (mkcb a CCns (CDecl T) :: G)
+                  ((a, BK kv) :: e) ((a, VClo T (arn_cls th cls') ae) :: ae)).
+  { eapply erel_push with (pi := fun y => th (rho y)) (need := fun y => occurs y (FsCut (FsMu c1 a s' t1) (CDecl T) (FsXCase c2 cls t2))).
+    - eapply erel_weaken; [exact He | lia | auto | apply incl_refl].
+    - exact Hpa.
+    - intros b0 _ Hb. split; [occ | reflexivity].
+    - rewrite (inv_self p _ _ _ _ _ Hinv Hua Hia). reflexivity.
+    - exact Hclo. }
+  destruct (IH n ltac:(lia) s' k lbl _ rho th st1 next st' _ _ _ (inv_push p _ _ _ _ _ CCns (CDecl T) Hinv1 Hua Hia) Hcs Hubs Hibs E2 Hpn Hlift He' _ _ Hrun' Hg) as [m Hm].
+  exists (S m). rewrite arn_create. cbn [exec_named shrink_ty ty_name shrink_identifier]. exact Hm.
+Qed.
+
+(* <cocase {..} | mu~ x.s>  =  create x = {..}; s *)
+Lemma fl_create_cocase : forall n, IHn n -> forall c1 cls t1 ty c2 x s' t2,
+  FLs p q n (FsCut (FsXCase c1 cls t1) ty (FsMu c2 x s' t2)).
+Proof.
+  intros n IH c1 cls t1 ty c2 x s' t2. start. cbn [rn_stmt] in Hsh. rewrite rn_term_xcase in Hsh.
+  cbn [rn_term shrink_step shrink_cut] in Hsh. unfold shrink_identifier in Hsh.
+  destruct (shrink_clauses _ _ (rn_clauses rho cls) st) as [[cls' st1]|] eqn:E1; [|discriminate Hsh]. cbn [sbind] in Hsh.
+  destruct (shrink_stmt k _ (rn_stmt rho s') st1) as [[next st2]|] eqn:E2; [|discriminate Hsh]. cbn [sbind] in Hsh. invsh Hsh.
+  rewrite check_stmt_cut_eq in Hck. apply seq_none in Hck as [Hty Hck]. apply seq_none in Hck as [Hcp Hck].
+  rewrite check_term_mu_eq in Hck. apply seq_none in Hck as [_ Hck]. apply seq_none in Hck as [_ Hcs]. cbn [opp] in Hcs.
+  destruct (xcase_typing p _ _ _ _ _ _ Hcp) as (T & d & -> & Hd & Hcm & Hcb).
+  rewrite ib_stmt_cut, ib_term_xcase, ib_term_mu in Hib. apply andb_prop in Hib as [Hibc Hib1].
+  apply andb_prop in Hib1 as [Hix Hibs]. apply id_le_le in Hix.
+  cbn [ub_stmt] in Hub. rewrite ub_term_xcase in Hub. cbn [ub_term] in Hub. apply andb_prop in Hub as [Hubc Hub1].
+  apply andb_prop in Hub1 as [Hux Hubs]. apply negb_mem_notin in Hux.
+  rewrite pfresh_create in Hpf. apply andb_prop in Hpf as [Hpf Hpn]. apply andb_prop in Hpf as [Hpc Hpx]. apply negb_memN_notin in Hpx.
+  destruct (shrink_clauses_mono p _ _ _ _ _ _ _ E1 (fun c Hc => proj2 (ib_clauses_in p _ _ Hibc Hc)) (inv_st _ _ _ _ _ Hinv)) as [Hm1 (nd1 & Hl1)].
+  assert (Hinv1 : inv p G rho th st1) by (eapply inv_st_mono; eauto).
+  destruct (shrink_mono p _ _ _ _ _ _ _ Hibs (inv_st _ _ _ _ _ Hinv1) E2) as [Hm2 (nd2 & Hl2)].
+  assert (Hlift1 : lifted_in q st1) by (eapply lifted_in_mono; eauto).
+  cbn [CoreSem.fs2c_stmt] in Hrun. rewrite fs2c_term_xcase in Hrun. cbn [CoreSem.fs2c_term] in Hrun.
+  core_step Hrun Hg n. cbn [CoreSem.khead CoreSem.cut_with_k CoreSem.interact_val cont] in Hrun.
+  set (pv := CoreSem.PCocase (fs2c_clauses cls) e) in *.
+  assert (Hco : is_codata codata (CDecl T) = true) by (eapply codata_is_codata; eauto).
+  assert (Hclo : vrel p q n CPrd (CDecl T) (BP pv) (VClo T (arn_cls th cls') ae)).
+  { apply VR_clo. apply cloR_intro; [exact Hco|]. intros j Hj tag fs sr (_ & d1 & sg & args & Hd1 & Hx & Hvs & ->).
+    rewrite Hd in Hd1. inv_keep Hd1. unfold pv. cbn [CoreSem.interact_val]. apply relsV_vrelsF in Hvs.
+    eapply (select_sim j (IH j ltac:(lia)) k lbl CPrd T d cls G rho th st cls' st1 A e ae tag sg args fs); eauto.
+    eapply erel_weaken; [exact He | lia | intros y Hy; cbn [occurs]; left; apply occ_term_xcase; assumption | apply incl_refl]. }
+  assert (He' : erel p q n (fun y => occurs y s') (fun y => th (rho y)) (idn x :: A) (mkcb x CPrd (CDecl T) :: G)
+                  ((x, BP pv) :: e) ((x, VClo T (arn_cls th cls') ae) :: ae)).
+  { eapply erel_push with (pi := fun y => th (rho y)) (need := fun y => occurs y (FsCut (FsXCase c1 cls t1) (CDecl T) (FsMu c2 x s' t2))).
+    - eapply erel_weaken; [exact He | lia | auto | apply incl_refl].
+    - exact Hpx.
+    - intros b0 _ Hb. split; [occ | reflexivity].
+    - rewrite (inv_self p _ _ _ _ _ Hinv Hux Hix). reflexivity.
+    - exact Hclo. }
+  destruct (IH n ltac:(lia) s' k lbl _ rho th st1 next st' _ _ _ (inv_push p _ _ _ _ _ CPrd (CDecl T) Hinv1 Hux Hix) Hcs Hubs Hibs E2 Hpn Hlift He' _ _ Hrun Hg) as [m Hm].
+  exists (S m). rewrite arn_create. cbn [exec_named shrink_ty ty_name shrink_identifier]. exact Hm.
+Qed.
 End CasesC.
